@@ -88,8 +88,40 @@ def construct(D, user, rng_seed=0, geom="linear", row=False, x0_kind="inside"):
     return b, mutated, dict_changed
 
 
+def mutable_values_through_a_run(ctx, rep):
+    """User options whose values are mutable objects (lists, arrays) shared by the caller's dict and by several instances built from it:
+    running one instance must leave the caller's dict, its own options and the other instance's options exactly as supplied."""
+    from pybads import BADS
+    rng = ctx.sub_rng("c20mut")
+    n = 0
+    variants = [{"search_method": [("ES-ell", 1), ("ES-wcm", 1)]}, {"search_method": [("ES-ell", 1), ("ES-wcm", 1), ("ES-ell", 0)]},
+                {"noise_nudge": np.array([1.0, 0.0])}, {"search_method": [("ES-wcm", 1), ("ES-ell", 1)], "fun_values": {}}]
+    for v in variants:
+        D = rng.choice([1, 2])
+        user = dict(copy.deepcopy(v), display="off", max_fun_evals=D + 22, n_search=32, random_seed=rng.randint(0, 99))
+        keep = copy.deepcopy(user)
+        mk = lambda: BADS(lambda x: float(np.sum(np.asarray(x) ** 2)), np.full(D, 0.3), np.full(D, -4.0), np.full(D, 6.0), np.full(D, -2.0), np.full(D, 3.0), options=user)
+        a, b = mk(), mk()
+        try:
+            a.optimize()
+        except Exception as ex:
+            rep.disagree("Opt.load ~ BADS (run with mutable option values)", f"optimize() raised {type(ex).__name__}: {str(ex)[:80]} with options {sorted(v)}", {"kind": "options_run", "user_keys": sorted(v)})
+            continue
+        n += 1
+        case = {"kind": "options_run", "D": D, "user_keys": sorted(v)}
+        for k in v:
+            if not same(user[k], keep[k]):
+                rep.violation("caller_dict_untouched", "bads.py / search_hedge.py (during optimize)", f"running an instance changed the caller's options dict: {k} = {user[k]!r}, supplied {keep[k]!r}", case)
+            elif not same(a.options[k], keep[k]):
+                rep.violation("user_value_kept", "options.py", f"after the run the instance's own option {k} = {a.options[k]!r} differs from the supplied {keep[k]!r}", case)
+            elif not same(b.options[k], keep[k]):
+                rep.violation("no_leak_between_instances", "options.py", f"running one instance changed option {k} of another instance built from the same dict: {b.options[k]!r}, supplied {keep[k]!r}", case)
+    return n
+
+
 def run(ctx):
     rep = Report()
+    nmut = mutable_values_through_a_run(ctx, rep)
     rng = ctx.sub_rng("c20")
     basic, adv = files()
     names = [k for k, _ in basic] + [k for k, _ in adv]
